@@ -66,6 +66,20 @@ func rpcGoroutines() map[string]string {
 	return out
 }
 
+// quietState reads the lock state once nothing holds the locks any more: a goroutine that is just finishing (a late
+// Release, the tail of a Return) may hold them for a moment after Close has returned; a lock that stays held is what
+// the property forbids.
+func quietState(conn *rpc.Conn) rpc.VerifConnState {
+	var st rpc.VerifConnState
+	for t0 := time.Now(); time.Since(t0) < deadline/4; time.Sleep(100 * time.Microsecond) {
+		st = conn.VerifState()
+		if st.MuFree && st.SenderFree {
+			break
+		}
+	}
+	return st
+}
+
 func runOnce(c Case, faults map[int]int) (*outcome, error) {
 	before := rpcGoroutines() // leftovers of earlier (failed) executions in this process are not this run's business
 	w := rpcsim.NewWire()
@@ -74,7 +88,7 @@ func runOnce(c Case, faults map[int]int) (*outcome, error) {
 	}
 	world := rpcsim.NewWorld()
 	_, boot := world.NewObject()
-	conn := rpc.NewConn(w, &rpc.Options{BootstrapClient: boot, AbortTimeout: 50 * time.Millisecond})
+	conn := rpc.NewConn(w, &rpc.Options{BootstrapClient: boot, AbortTimeout: 5 * time.Second})
 	out := &outcome{}
 	guard := func(what string, f func()) error {
 		done := make(chan struct{})
@@ -272,7 +286,7 @@ func runOnce(c Case, faults map[int]int) (*outcome, error) {
 		return out, pbt.Fail("transport-close-count", "transport Close called %d times (closed=%v)", n, closed)
 	}
 	// no lock stays held
-	st := conn.VerifState()
+	st := quietState(conn)
 	if !st.MuFree {
 		return out, pbt.Fail("lock-held/conn-mutex", "Conn.mu is still locked after Close returned (faults %v)", faults)
 	}
